@@ -31,7 +31,8 @@ J gen_seq(const std::string& prop, uint64_t run_seed, const std::string& tier) {
   GenProfile gp; gp.max_depth = 3; gp.max_kids = 3; gp.big_len_cap = 200;
   J conns = J::arr();
   unsigned nconn = (unsigned)g.range(1, 2);
-  bool want_faults = prop == "C05" || prop == "C06" || (prop == "C13" && kn.chance(1, 3));
+  bool lite = prop == "C05lite";
+  bool want_faults = prop == "C05" || lite || prop == "C06" || (prop == "C13" && kn.chance(1, 3));
   for (unsigned s = 0; s < nconn; s++) {
     std::vector<uint8_t> bytes; bool deep_item = false;
     unsigned nitems = (unsigned)g.range(1, 6);
@@ -41,7 +42,7 @@ J gen_seq(const std::string& prop, uint64_t run_seed, const std::string& tier) {
         static const uint8_t H[] = {0x9a, 0x9b, 0xba, 0xbb};
         uint8_t h = H[g.below(4)]; bytes.push_back(h); int w = (h & 1) ? 8 : 4; uint64_t cnt = g.chance(1, 2) ? gen_u64(g) | (1ull << 28) : (1ull << g.range(10, 40));
         for (int k = w - 1; k >= 0; k--) bytes.push_back((uint8_t)(cnt >> (8 * k)));
-      } else if (g.chance(1, impl_max_stack() <= 64 ? 7 : 150)) {   // nesting around the decoder's limit (what 'nests beyond the limit' and 'never a hard error for a prefix' are about)
+      } else if (!(lite && impl_max_stack() > 64) && g.chance(1, impl_max_stack() <= 64 ? 7 : 150)) {   // nesting around the decoder's limit (what 'nests beyond the limit' and 'never a hard error for a prefix' are about)
         unsigned L = impl_max_stack(); std::vector<uint64_t> kinds; unsigned nk = (unsigned)g.range(1, 4); for (unsigned k = 0; k < nk; k++) kinds.push_back(g.below(12));
         unsigned lk = (unsigned)g.below(6); unsigned ll = nest_leaf_levels(lk);
         uint64_t want; switch (g.below(6)) { case 0: want = L > 1 ? L - 1 : 1; break; case 1: case 2: want = L; break; case 3: case 4: want = (uint64_t)L + 1; break; default: want = (uint64_t)L + g.below(5); }
@@ -69,7 +70,7 @@ J gen_seq(const std::string& prop, uint64_t run_seed, const std::string& tier) {
     else { uint64_t left = len; while (left > 0 && cuts.size() < 48) { uint64_t k = net.range(1, std::max<uint64_t>(1, std::min<uint64_t>(left, net.chance(1, 3) ? 3 : 30))); cuts.push_back(k); left -= k; } }
     J jc = J::arr(); for (auto v : cuts) jc.push(v); c.set("cuts", jc);
     J d = J::arr(); for (size_t i = 0; i <= cuts.size(); i++) d.push(net.below(4) == 0 ? net.below(50) : net.below(3)); c.set("delays", d);
-    if (net.chance(1, 2) || prop == "C05") c.set("close", net.below(len + 1));
+    if (net.chance(1, 2) || prop == "C05" || lite) c.set("close", net.below(len + 1));
     if (want_faults && fr.chance(2, 3)) {
       // faults attached to receiver calls: [call index, kind, k]
       J fl = J::arr(); unsigned nf = (unsigned)fr.range(1, 3);
@@ -143,7 +144,7 @@ void exec_seq(const J& plan) {
         if (r.nedata) break;                                        // wait for more
         c.stopped = true;                                           // hard error: give up on this connection
       }
-      if (++guard > 100000) { fail("C14", "receiver-livelock", "receiver made 100000 calls on one delivery"); break; }
+      if (++guard > 20000000) { fail("C14", "receiver-livelock", "receiver made 100000 calls on one delivery"); break; }
     }
   };
   uint64_t steps = 0;
@@ -159,7 +160,7 @@ void exec_seq(const J& plan) {
     bool eof = c.sent >= c.deliver_total;
     receiver_step(c, e.conn, eof);
     if (!eof) { uint64_t d = c.next_frag < c.delays.size() ? c.delays[c.next_frag] : 1; q.push(Event{now + d, seq++, e.conn}); }
-    if (++steps > 1000000) { fail("C14", "simulation-step-budget", "step budget exceeded"); break; }
+    if (++steps > 50000000) { fail("C14", "simulation-step-budget", "step budget exceeded"); break; }
   }
   g_run.sim_time = now; stat_max("max_sim_time", now);
   // history oracle (C14): exactly the items of the delivered prefix, once each, in order, ending where the last complete item ends
